@@ -458,7 +458,7 @@ class Analysis:
             del st.bf[d]
         for k in [k for k, v in st.sym.items() if key_root(v[2]) == l]:
             del st.sym[k]
-        for k in [k for k, v in st.rel.items() if v[0] == "cast" and key_root(v[1]) == l]:
+        for k in [k for k, v in st.rel.items() if v[0] in ("cast", "inrange") and key_root(v[1]) == l]:
             del st.rel[k]
         for k in list(st.ub):
             if key_root(k) == l:
@@ -1102,10 +1102,15 @@ class Analysis:
             if obs is not None:
                 ua = self.uint_arg_of(a0_local)
                 obs = (obs, ua) if ua is not None else None
+        inrange = None
+        if name is not None and name.endswith("::contains") and name.startswith("core::ops::range::Range") and len(args) == 2:
+            inrange = self._range_contains(st, name, args)
         for a in args:
             if a.get("o") in ("copy", "move") and not a["p"]:
                 st.shadow.pop(a["l"], None)
         self.kill_local(st, d)
+        if inrange is not None and d not in self.escaped:
+            st.rel[d] = inrange
         if obs is not None and d not in self.escaped:
             st.rel[d] = obs
             if self.v.cfg is not None:
@@ -1144,6 +1149,91 @@ class Analysis:
                     st.sym[("pl", d, p_)] = v
             for p_, v in ubs.items():
                 st.ub[("pl", d, p_)] = v
+
+    def _deref_local(self, l, depth=6):
+        """Follow `&*r` / `&x` / copies of references back to the local (or promoted constant) they denote."""
+        while depth > 0:
+            depth -= 1
+            d = self.v.single_def(l)
+            if d is None or d[1] == "term":
+                return ("local", l)
+            rv = d[2]["rv"]
+            if rv["r"] == "ref" and rv["pl"]["p"] == ["deref"]:
+                l = rv["pl"]["l"]
+            elif rv["r"] == "ref" and not rv["pl"]["p"]:
+                return ("local", rv["pl"]["l"])
+            elif rv["r"] == "use" and rv["a"].get("o") in ("copy", "move") and not rv["a"]["p"]:
+                l = rv["a"]["l"]
+            elif rv["r"] == "use" and rv["a"].get("o") == "const" and rv["a"].get("c") == "promoted":
+                return ("promoted", rv["a"]["i"])
+            else:
+                return ("local", l)
+        return None
+
+    def _range_contains(self, st, name, args):
+        """("inrange", key of x, lo, hi) for `(lo..hi).contains(&x)` / `(lo..=hi).contains(&x)` with constant bounds."""
+        if not all(a.get("o") in ("copy", "move") and not a["p"] for a in args):
+            return None
+        r, x = self._deref_local(args[0]["l"]), self._deref_local(args[1]["l"])
+        if r is None or x is None or x[0] != "local" or self.rng[x[1]] is None or x[1] in self.escaped:
+            return None
+        inclusive = "RangeInclusive" in name
+        lo = hi = None
+        if r[0] == "promoted":
+            proms = self.body.get("promoted") or []
+            if r[1] >= len(proms):
+                return None
+            pb = proms[r[1]]
+            vals = []
+            known = {}
+
+            def pval(o):
+                if o.get("o") == "const":
+                    return o.get("v") if isinstance(o.get("v"), int) else None
+                if o.get("o") in ("copy", "move") and not o["p"]:
+                    return known.get(o["l"])
+                return None
+            for blk in pb["blocks"]:
+                for s_ in blk["stmts"]:
+                    if s_["s"] != "assign" or s_["pl"]["p"]:
+                        continue
+                    rv_ = s_["rv"]
+                    if rv_["r"] == "use":
+                        known[s_["pl"]["l"]] = pval(rv_["a"])
+                    elif rv_["r"] == "bin":
+                        x_, y_ = pval(rv_["a"]), pval(rv_["b"])
+                        if x_ is not None and y_ is not None:
+                            f_ = {"Shr": lambda p_, q_: p_ >> q_, "Shl": lambda p_, q_: p_ << q_, "Sub": lambda p_, q_: p_ - q_,
+                                  "Add": lambda p_, q_: p_ + q_, "Mul": lambda p_, q_: p_ * q_}.get(rv_["op"])
+                            if f_ is not None and 0 <= y_ < 256:
+                                known[s_["pl"]["l"]] = f_(x_, y_)
+                    elif rv_["r"] == "agg" and rv_.get("def", "").startswith("core::ops::range::Range"):
+                        vals = [pval(o) for o in rv_["ops"]]
+                t_ = blk["term"]
+                if t_["t"] == "call" and (ir.callee_name(t_["fn"]) or "").endswith("RangeInclusive::<Idx>::new"):
+                    vals = [pval(o) for o in t_["args"]]
+            if len(vals) >= 2 and all(isinstance(v_, int) for v_ in vals[:2]):
+                lo, hi = vals[0], vals[1]
+                trng = self.rng[x[1]]
+                if not (trng[0] <= lo <= trng[1] and trng[0] <= hi <= trng[1]):
+                    return None
+        else:
+            d = self.v.single_def(r[1])
+            ops = None
+            if d is not None and d[1] == "term" and (ir.callee_name(d[2]["fn"]) or "").endswith("RangeInclusive::<Idx>::new"):
+                ops = d[2]["args"]
+            elif d is not None and d[1] != "term" and d[2]["rv"]["r"] == "agg":
+                ops = d[2]["rv"]["ops"]
+            if ops and len(ops) >= 2:
+                a, _ = self.eval_operand(st, ops[0])
+                b, _ = self.eval_operand(st, ops[1])
+                if a is not None and b is not None and a[0] == a[1] and b[0] == b[1]:
+                    lo, hi = a[0], b[0]
+        if lo is None:
+            return None
+        if not inclusive:
+            hi -= 1
+        return ("inrange", st.alias.get(x[1], x[1]), lo, hi)
 
     def range_operand(self, op):
         """(kind, start operand, end operand) of a Range* typed operand built by an aggregate."""
@@ -1211,6 +1301,10 @@ class Analysis:
             op = NEG[op]
         a = self.get(st, ak)
         b = self.get(st, bk)
+        if a is None:
+            a = self._range_via_alias(st, ak)
+        if b is None:
+            b = self._range_via_alias(st, bk)
         if a is None or b is None:
             return True
         na, nb = a, b
@@ -1258,6 +1352,15 @@ class Analysis:
                 m = meet(st.iv.get(t, self.rng[t]), n)
                 st.iv[t] = m if m[0] <= m[1] else n
         return True
+
+    def _range_via_alias(self, st, key):
+        """Type range of a field key that has no interval yet, taken from an integer temporary that is a copy of it."""
+        if not (isinstance(key, tuple) and key[0] == "pl"):
+            return None
+        for t, k in st.alias.items():
+            if k == key and t not in self.escaped and self.rng[t] is not None:
+                return meet(st.iv.get(t, self.rng[t]), self.rng[t])
+        return None
 
     def _refine_related(self, st, op, ak, na, bk, nb):
         """Consequences of a refined comparison for related keys.
@@ -1325,6 +1428,21 @@ class Analysis:
                 vals = [v for v, b in t["targets"] if b == s]
                 is_other = (t["otherwise"] == s)
                 ns = st
+                inr = st.rel.get(d["l"]) if plain else None
+                if cond is None and inr is not None and inr[0] == "inrange":
+                    truths = {bool(v) for v in vals}
+                    if is_other:
+                        truths |= ({True, False} - {bool(v) for v in all_vals})
+                    if truths == {True}:
+                        ns = st.copy()
+                        cur = self.get(ns, inr[1])
+                        if cur is not None:
+                            m = meet(cur, (inr[2], inr[3]))
+                            if m[0] > m[1]:
+                                continue
+                            self.set(ns, inr[1], m)
+                    out.append((s, ns))
+                    continue
                 if cond is not None:
                     truths = {bool(v) for v in vals}
                     if is_other:
